@@ -258,7 +258,8 @@ pub fn par_sweep<F: Fn(u64) -> bool + Sync>(limit: u64, stride: u64, off: u64, c
                     if d && out.len() < cap {
                         out.push(i);
                     }
-                    if k % 4096 == 0 {
+                    if (k / nthreads) % 4096 == 0 {
+                        // (every thread reports: any one of them may be the last to finish)
                         crate::guard::PROGRESS.fetch_add(1, std::sync::atomic::Ordering::Relaxed);
                     }
                     k += nthreads;
@@ -307,7 +308,7 @@ pub fn par_top<F: Fn(u64) -> Option<i64> + Sync>(limit: u64, stride: u64, off: u
                             }
                         }
                     }
-                    if j % 4096 == 0 {
+                    if (j / nthreads) % 4096 == 0 {
                         crate::guard::PROGRESS.fetch_add(1, std::sync::atomic::Ordering::Relaxed);
                     }
                     j += nthreads;
